@@ -97,6 +97,11 @@ struct IHeter
 	virtual void forEach(int key, int proto, std::vector<int> & out) = 0;
 	// forEach<Prototype> selects by first match too: a shadowed prototype cannot be named
 	virtual bool canEnumerate(int) const { return true; }
+	// known finding E12 (KNOWN_FINDINGS.txt, heter.queue.nonconstref): an event enqueued for a prototype with a non-const
+	// reference parameter is dispatched at processing time by selecting the prototype again from const lvalues, i.e. to the
+	// listeners of a later prototype. Argument kinds for which that happens are not enqueued (counted instead), except when
+	// the driver asks for known findings.
+	virtual bool enqueueHitsKnownFinding(int) const { return false; }
 	// copy-construct (how=0) or copy-assign (how=1) a second queue from this one, check it lists the same number of
 	// listeners, destroy it; returns false if the copy differs
 	virtual bool copyProbe(int how) = 0;
@@ -337,13 +342,69 @@ struct Cfg2 : IHeter
 	size_t handleCount() const override { return handles.size(); }
 };
 
-const int kConfigs = 3;
+
+// ---- configuration 3: a non-const reference prototype listed before the const reference one:
+// L5 = <void(std::string &), void(const std::string &), void(int)>. A non-const lvalue argument selects the first, a const
+// lvalue or a temporary the second; a callable taking const std::string & can be called with a std::string & and therefore
+// binds to the first.
+using L5 = eventpp::HeterTuple<void (std::string &), void (const std::string &), void (int)>;
+struct OnlyConstRef : LedgeredT<2> // refuses a non-const lvalue: the only way to bind to the second prototype
+{
+	explicit OnlyConstRef(int cb) : LedgeredT<2>(kCbBase + cb) {}
+	void operator() (const std::string & v) const { touch(); Summary s; descAll(s, v); deliver(id - kCbBase, s); }
+	void operator() (std::string &) const = delete;
+};
+struct Cfg3 : HBase<eventpp::HeterEventQueue<int, L5> >
+{
+	int protoCount() const override { return 3; }
+	int callableKinds() const override { return 4; }
+	int argKinds() const override { return 4; }
+	int predKinds() const override { return 2; }
+	int protoOfCallable(int k) const override { static const int t[] = { 0, 0, 1, 2 }; return t[k]; }
+	int protoOfArgs(int k) const override { static const int t[] = { 0, 1, 1, 2 }; return t[k]; }
+	int protosOfPred(int k) const override { static const int t[] = { 1 | 2, 4 }; return t[k]; }
+	void add(int key, int kind, int how, int b, int cb) override {
+		switch(kind) {
+		case 0: addF(key, how, b, Fn<std::string &>(cb)); break;
+		case 1: addF(key, how, b, Fn<const std::string &>(cb)); break;   // callable with std::string & too: first match
+		case 2: addF(key, how, b, OnlyConstRef(cb)); break;
+		default: addF(key, how, b, Fn<int>(cb)); break;
+		}
+	}
+	template <typename Call> void call(Call c, int argKind, int serial, int value, Summary & e) {
+		switch(argKind) {
+		case 0: { std::string s = strOf(serial, value); descAll(e, s); c(s); break; }                       // non-const lvalue
+		case 1: { const std::string s = strOf(serial, value); descAll(e, s); c(s); break; }                 // const lvalue
+		case 2: { descAll(e, strOf(serial, value)); c(strOf(serial, value)); break; }                       // temporary
+		default: descAll(e, value); c(value); break;
+		}
+	}
+	void dispatch(int key, int argKind, int serial, int value, Summary & e) override {
+		call([&](auto && ...a) { q.dispatch(key, std::forward<decltype(a)>(a)...); }, argKind, serial, value, e);
+	}
+	void enqueue(int key, int argKind, int serial, int value, Summary & e) override {
+		call([&](auto && ...a) { q.enqueue(key, std::forward<decltype(a)>(a)...); }, argKind, serial, value, e);
+	}
+	bool processIf(int k) override { return k == 0 ? q.processIf(Pr<const std::string &>()) : q.processIf(Pr<int>()); }
+	void forEach(int key, int proto, std::vector<int> & out) override {
+		switch(proto) {
+		case 0: each<void (std::string &)>(key, out); break;
+		case 1: break; // forEach<void(const std::string &)> is callable with std::string &: it names the first prototype (see canEnumerate)
+		default: each<void (int)>(key, out); break;
+		}
+	}
+	bool canEnumerate(int proto) const override { return proto != 1; }
+	bool enqueueHitsKnownFinding(int argKind) const override { return argKind == 0; }
+};
+
+const int kConfigs = 4;
 IHeter * makeImpl(int cfg)
 {
 	switch(cfg) {
 	case 0: return new Cfg0();
 	case 1: return new Cfg1();
-	default: return new Cfg2();
+	case 2: return new Cfg2();
+	default: return new Cfg3();
 	}
 }
 
@@ -388,9 +449,13 @@ struct Interp
 	FaultPlan * plan = nullptr;
 
 	Interp(const Program & p, const std::string & pr, Verdict & v_) : prog(p), prop(pr), v(v_) {}
-	void fail(const std::string & rule, const std::string & pr, const std::string & msg) {
+	bool knownTriggered = false; // an enqueue that runs into known finding E12 was performed (only when the driver asks for it)
+	long knownSkipped = 0;
+	void fail(const std::string & rule0, const std::string & pr, const std::string & msg0) {
 		if(failed) return;
 		failed = true;
+		const std::string rule = knownTriggered ? "heter.queue.nonconstref" : rule0;
+		const std::string msg = knownTriggered ? "an event enqueued for a non-const reference prototype was dispatched to another prototype's listeners at processing time (" + rule0 + ": " + msg0 + ")" : msg0;
 		std::string s = log.str();
 		if(s.size() > 600) s = "..." + s.substr(s.size() - 600);
 		v.fail(rule, pr, msg + " | log: " + s);
@@ -436,8 +501,9 @@ struct Interp
 	// pending, including whatever the running processIf puts back (those events stay "in place", i.e. ahead of it)
 	void reenter(int cb) {
 		if((size_t)cb >= nodeEnq.size() || nodeEnq[(size_t)cb] < 0 || enqFuel <= 0 || plan) return;
-		--enqFuel;
 		const int ak = nodeEnq[(size_t)cb] & 0xff, key = (nodeEnq[(size_t)cb] >> 8) & 1;
+		if(impl->enqueueHitsKnownFinding(ak)) { ++knownSkipped; return; }
+		--enqFuel;
 		MEv e;
 		e.serial = nextSerial++;
 		e.key = key;
@@ -534,6 +600,11 @@ struct Interp
 				frames.pop_back();
 			}
 			else {
+				if(impl->enqueueHitsKnownFinding(ak)) {
+					static const bool reportKnown = getenv("VERIF_REPORT_KNOWN") != nullptr;
+					if(! reportKnown) { ++knownSkipped; --nextSerial; log << "(skipped: known finding E12)"; break; }
+					knownTriggered = true;
+				}
 				if(consumed > 0 && ! slotProtos.empty() && ! slotProtos.count(e.proto)) recycledAcross = true;
 				impl->enqueue(key, ak, e.serial, value, e.args);
 				pending.push_back(e);
@@ -752,6 +823,7 @@ Verdict runOnce(const Program & p, const std::string & prop, FaultPlan * plan)
 		cls(in.recycledAcross, "slot_recycled_across_prototypes");
 		cls(in.firstMatch, "argument_kind_selecting_by_conversion_or_first_match");
 		cls(in.enqueuedDuringProcessIfWithLeftovers, "listener_enqueued_during_processIf_that_left_events");
+		cls(in.knownSkipped > 0, "known_finding_enqueue_for_nonconst_reference_prototype_skipped");
 		v.nontrivial = in.foreignPending && in.recycledAcross;
 		const std::string full = in.log.str();
 		v.trace.assign(full, 0, std::min<size_t>(full.size(), 4000));
